@@ -59,6 +59,7 @@ type writer struct {
 	mustNL      bool // a line comment was written: the next token must start a new line
 	atLineStart bool
 	curMethod   *Method
+	curType     *TypeDecl
 }
 
 func newWriter(r *run.Rand, lay Layout) *writer {
@@ -316,6 +317,8 @@ func RenderFile(r *run.Rand, f *File, lay Layout) {
 
 // typeDecl renders one top-level type at the current position.
 func (w *writer) typeDecl(t *TypeDecl) {
+	w.curType = t
+	t.InitSites = nil
 	w.fresh()
 	if w.r.Chance(w.lay.Comments, 10) {
 		w.comment(false)
@@ -578,6 +581,9 @@ func (w *writer) plant(site *Site) {
 	if w.curMethod != nil {
 		site.Ord = len(w.curMethod.Sites)
 		w.curMethod.Sites = append(w.curMethod.Sites, site)
+	} else if w.curType != nil {
+		site.Ord = len(w.curType.InitSites)
+		w.curType.InitSites = append(w.curType.InitSites, site)
 	}
 }
 
@@ -623,6 +629,7 @@ func (w *writer) expr(e *Expr) {
 		w.s("new ")
 		w.plant(e.Site)
 		w.s(e.Site.Name)
+		w.s(e.TypeArgs)
 		w.args(e.Args)
 		w.s(e.AnonBody)
 	case "lambda":
